@@ -699,3 +699,55 @@ mod tests {
         }
     }
 }
+
+#[cfg(futures_intrusive_verif)]
+impl<T> ListNode<T> {
+    /// Returns the raw `[prev, next]` links of the node (0 = None)
+    pub fn verif_links(&self) -> [usize; 2] {
+        [
+            self.prev.map_or(0, |p| p.as_ptr() as usize),
+            self.next.map_or(0, |p| p.as_ptr() as usize),
+        ]
+    }
+}
+
+#[cfg(futures_intrusive_verif)]
+impl<T> LinkedList<T> {
+    /// Returns the raw `[head, tail]` links of the list (0 = None)
+    pub fn verif_ends(&self) -> [usize; 2] {
+        [
+            self.head.map_or(0, |p| p.as_ptr() as usize),
+            self.tail.map_or(0, |p| p.as_ptr() as usize),
+        ]
+    }
+
+    /// Visits all nodes from the front to the back of the list without
+    /// modifying anything. Checks the consistency of the links along the way
+    /// and visits at most `limit` nodes.
+    pub fn verif_walk(
+        &self,
+        limit: usize,
+        func: &mut dyn FnMut(&ListNode<T>),
+    ) -> Result<(), &'static str> {
+        let mut prev: Option<NonNull<ListNode<T>>> = None;
+        let mut current = self.head;
+        let mut visited = 0;
+        while let Some(node) = current {
+            if visited == limit {
+                return Err("list: more nodes than the walk limit (cycle?)");
+            }
+            visited += 1;
+            let node_ref = unsafe { &*(node.as_ptr() as *const ListNode<T>) };
+            if node_ref.prev != prev {
+                return Err("list: node.prev is not the predecessor");
+            }
+            func(node_ref);
+            prev = current;
+            current = node_ref.next;
+        }
+        if self.tail != prev {
+            return Err("list: tail is not the last node");
+        }
+        Ok(())
+    }
+}
